@@ -95,6 +95,16 @@ def cases(T):
 
 
 def build(chk):
+    from vf.engb import EngB
+    eb = EngB(chk, 'quat', validate=False)
+    eb.variant('exact', only=['w_q_extractf'])
+    for major in range(3):
+        for minor in range(3):
+            if minor == major: continue
+            chk.add(eb.ob('O5.extractQuat_near_axis_ieee.major%s_minor%s' % ('xyz'[major], 'xyz'[minor]), 'c10/extract.c', 'h_extract_near_axis',
+                          'IEEE single precision: extractQuat(q.toMatrix44()) is q or -q to 1e-4 for q = (0; +-e_%s +- eps e_%s), every eps in [2^-12, 2^-6] - rotations by pi about an axis a hair off a coordinate axis, where choosing any but the largest diagonal entry divides by a cancelled quantity' % ('xyz'[major], 'xyz'[minor]),
+                          defines=('MAJOR=%d' % major, 'MINOR=%d' % minor), unwind=6, timeout=600, backends=('kissat', 'cadical', 'minisat'),
+                          bounds='eps: every float in [2^-12, 2^-6], both signs of both components; w = 0 and the third component 0'))
     e = EngC(chk, 'quat', keep_calls=[contracts.LENGTH_RE])
     for T in ('d', 'f'):
         for c in cases(T):
